@@ -138,6 +138,14 @@ def accumulator_provenance(ctx):
     iu = ctx.unit('reduction.Fold.__init__')
     st = [n for n in iu.own_nodes() if isinstance(n, ast.Assign) and isinstance(n.targets[0], ast.Attribute) and n.targets[0].attr == 'init']
     ctx.ob(len(st) == 1 and is_name(st[0].value, 'init'), iu, 'init is kept as a factory: %s' % [norm(s) for s in st])
+    # the caller's subspec / init / op are stored as given (a substituted operator changes what the fold computes)
+    for prm in ('subspec', 'init', 'op'):
+        sts = [n for n in iu.own_nodes() if isinstance(n, ast.Assign) and isinstance(n.targets[0], ast.Attribute)
+               and n.targets[0].attr == prm and is_name(n.targets[0].value, iu.params[0])]
+        rebound = [n for n in iu.own_nodes() if isinstance(n, ast.Name) and n.id == prm and isinstance(n.ctx, ast.Store)]
+        ok = len(sts) == 1 and is_name(sts[0].value, prm) and not rebound and prm in iu.params
+        ctx.ob(ok, iu, 'Fold keeps the %s it was given: %s' % (prm, [norm(x) for x in sts]),
+               '' if ok else ('the parameter is rebound at line(s) %s' % [n.lineno for n in rebound] if rebound else ''))
     mu = ctx.unit('reduction.Merge.__init__')
     probes = [c for c in calls_in(mu) if is_name(c.func, 'init')]
     for c in probes:
@@ -362,3 +370,28 @@ def wiring(ctx):
     ok = len(r) == 1 and len(st) == 1 and is_name(r[0].value, st[0].targets[0].id) and is_name(st[0].value.args[0], tu.params[0])
     ctx.ob(ok, tu, 'and returns iterate(target) itself (no materialisation)')
     ctx.floor(5)
+
+
+@rule('C15.9')
+def text_is_not_iterable(ctx):
+    """the default 'iterate' registration (what Fold / Flatten / Merge reach through target_iter)
+    treats exactly str and bytes as scalars; everything else with __iter__ is iterable"""
+    from ..util import decision_function, Undecidable
+    u = ctx.unit('core._AbstractIterable.__subclasshook__')
+    c = u.params[1]
+    try:
+        atoms, decide = decision_function(u)
+    except Undecidable as e:
+        ctx.ob(False, u, 'the iterability test is a decision over the candidate class', str(e))
+        return
+    excl = [a for a in atoms]
+    want = '%s in (str, bytes)' % c
+    ok = len(atoms) == 1 and (atoms[0] == want or atoms[0] == '%s in (bytes, str)' % c)
+    ctx.ob(ok, u, 'text scalars are excluded by identity with str / bytes: %s' % atoms,
+           '' if ok else 'expected the single test `%s`' % want)
+    if ok:
+        a = atoms[0]
+        ctx.ob(decide({a: True}) == ('return', 'False'), u, 'str and bytes are not iterable targets')
+        ctx.ob(decide({a: False}) == ('return', "callable(getattr(%s, '__iter__', None))" % c), u,
+               'any other class with a callable __iter__ is: %s' % (decide({a: False}),))
+    ctx.floor(2)
